@@ -183,6 +183,21 @@ func evalC13(op string, args []string) string {
 		radius.IsAuthenticRequest(b, secret)
 		radius.IsAuthenticResponse(b, b, secret)
 		flag("predicates-write-input", !bytes.Equal(b, orig))
+		// the exported ParseAttributes must not alias its input either
+		if len(b) > 20 {
+			region := append([]byte{}, b[20:]...)
+			if as, err := radius.ParseAttributes(region); err == nil {
+				before := showAttributes(as)
+				for i := range region {
+					region[i] ^= 0xff
+				}
+				flag("parseattrs-result-aliases-buffer", showAttributes(as) != before)
+			} else {
+				flag("parseattrs-result-aliases-buffer", false)
+			}
+		} else {
+			flag("parseattrs-result-aliases-buffer", false)
+		}
 		if err != nil {
 			return strings.Join(out, " ") + " unparsed"
 		}
